@@ -106,6 +106,12 @@ func genTree(r *rand.Rand, depth int, root bool) *tnode {
 		if n.Kind == "dir" && r.Intn(4) == 0 {
 			n.Writer = "hand-unsorted" // a plain directory block whose links are not in name order
 		}
+		wide := false
+		if n.Kind == "dir" && cnt > 0 && r.Intn(9) == 0 {
+			// a wide plain directory (wide nodes tempt implementations into indexes); its entries are files
+			cnt = 65 + r.Intn(80)
+			wide = true
+		}
 		names := genTreeNames(r, cnt)
 		if r.Intn(3) == 0 {
 			// names longer than any filesystem allows
@@ -131,7 +137,11 @@ func genTree(r *rand.Rand, depth int, root bool) *tnode {
 			}
 		}
 		for _, name := range names {
-			c := genTree(r, depth-1, false)
+			cd := depth - 1
+			if wide {
+				cd = 0
+			}
+			c := genTree(r, cd, false)
 			c.Name = name
 			n.Children = append(n.Children, c)
 		}
